@@ -181,4 +181,50 @@ theorem cpuFreqPlat_refines (c : Cfg) (hg : c.Good) (variant : Bool) (blocks : L
     · simp only [hl, if_false] at h ⊢
       simpa only [infoAt] using h
 
+/-! ### fans -/
+
+theorem readFan_refines (c : Cfg) (hg : c.Good) (ch : Chip) (f : Fan) (r : Option FanOut)
+    (h : fanRow ch f = some r) : readFan c ch f = .ok r := by
+  unfold fanRow fileInt at h
+  unfold readFan
+  cases hi : f.input with
+  | absent => simp [hi, FileState.readOpt] at h; simp [FileState.read, hg.fanOs, h]
+  | unreadable => simp [hi, FileState.readOpt] at h; simp [FileState.read, hg.fanOs, h]
+  | content b =>
+    simp only [hi, FileState.readOpt, Option.map_some] at h
+    cases hb : pyInt? b with
+    | none => simp [hb] at h
+    | some rpm =>
+      simp only [hb] at h
+      cases hn : ch.name with
+      | absent => simp [hn, FileState.readOpt] at h
+      | unreadable => simp [hn, FileState.readOpt] at h
+      | content nm =>
+        simp only [hn, FileState.readOpt, Option.some.injEq] at h
+        simp [FileState.read, hb, ofOpt, FileState.readOpt, ← h, fileText]
+
+theorem collect_allSome {α β : Type} (f : α → Res (Option β)) (g : α → Option (Option β)) (l : List α)
+    (hfg : ∀ a ∈ l, ∀ r, g a = some r → f a = .ok r) (rs : List (Option β))
+    (h : allSome (l.map g) = some rs) : collect f l = .ok (rs.filterMap id) := by
+  induction l generalizing rs with
+  | nil => simp [allSome] at h; subst h; rfl
+  | cons a as ih =>
+    simp only [List.map_cons] at h
+    obtain ⟨r, rs', h1, h2, h3⟩ := allSome_cons _ _ _ h
+    have ha := hfg a (by simp) r h1
+    have ih' := ih (fun x hx => hfg x (by simp [hx])) rs' h2
+    unfold collect
+    rw [ha, ih', h3]
+    cases r <;> simp
+
+theorem fans_refine (c : Cfg) (hg : c.Good) (chips : List Chip) (l : List FanOut)
+    (h : fans chips = some l) : sensorsFans c chips = .ok l := by
+  unfold fans at h
+  unfold sensorsFans
+  simp only [Option.map_eq_some_iff] at h
+  obtain ⟨rs, h1, h2⟩ := h
+  rw [← h2]
+  exact collect_allSome (fun (cf : Chip × Fan) => readFan c cf.1 cf.2) (fun (cf : Chip × Fan) => fanRow cf.1 cf.2) _
+    (fun cf _ r hr => readFan_refines c hg cf.1 cf.2 r hr) rs h1
+
 end Psutil.C19
